@@ -119,7 +119,7 @@ class Run:
             print("  reason: %s" % reason[:300])
             sys.stdout.flush()
 
-    def finish(self):
+    def finish(self, write_evidence=True):
         ev = {
             "property_id": self.prop,
             "tier": self.tier,
@@ -146,8 +146,9 @@ class Run:
             ev["coverage"]["programs"] = self.evaluations
             ev["coverage"]["disagreements_checked"] = len(self.violations) + len(self.known_hits)
         ev["coverage"].update(self.extra)
-        os.makedirs(EVID, exist_ok=True)
-        json.dump(ev, open(os.path.join(EVID, self.prop + ".json"), "w"), indent=1)
+        if write_evidence:
+            os.makedirs(EVID, exist_ok=True)
+            json.dump(ev, open(os.path.join(EVID, self.prop + ".json"), "w"), indent=1)
         for k in self.known:
             if k["id"] not in self.known_hits:
                 print("KNOWN-FINDING-STALE: property=%s %s did not reproduce in this run" % (self.prop, k["id"]))
